@@ -88,7 +88,9 @@ DEFAULT_NA = "not yet implemented in this revision of the framework (see DESIGN.
 checks = []
 # clauses added in later rounds (kept apart so that the original claim texts stay readable)
 ALSO = {
- "C01": " Also decided: the argument iterator, evaluated on probe type strings with nested / adjacent / empty arrays, yields every tag but '[' and ']' in order.",
+ "C07": " Also decided by evaluation on 65 probe messages (whole, split over two ring segments, followed by other bytes, cut short) and on strings whose first byte is NUL: the validator returns the specified length and agrees with the readers on where every argument lies.",
+ "C02": " Where sizer and writer are not written as a tag switch in a loop, they are compared by evaluation on the same probe messages.",
+ "C01": " Also decided by evaluation on 65 probe messages against the OSC 1.0 encoding written down from the specification: the sizer's length, every byte the writer emits, and the tag and offset the readers find for every argument. Also decided: the argument iterator, evaluated on probe type strings with nested / adjacent / empty arrays, yields every tag but '[' and ']' in order.",
  "C06": " Also decided: no length or offset is computed from two different loads of the index the other thread advances (label flow on the AST; comparisons exempt).",
  "C09": " Also decided for walk_ports: bytes appended by hand are NUL-terminated before the walker or the recursion reads the buffer.",
  "C10": " Also decided: the printer leaves the second value of a range out exactly when the step is +-1 in the run's own type and no differing value of that type precedes (rtosc_print_range evaluated on symbolic runs), and it has a run's count confirmed by the readers' function for both spellings.",
